@@ -204,6 +204,30 @@ def generate_collect(api):
                "Definition paint_loop_subroots : bool := %s." % ('true' if subroots else 'false'),
                "(* every `if` condition of the collection loops *)",
                "Definition collector_guards : list (string * list string) :=\n  [%s].\n" % ";\n   ".join(rows)]
+        # the `seen` address sets that make the collectors linear (fix 37642ef): every mention of a seen-set in a collector
+        # (declaration / parameter, the guarded insert, handing it on to the recursive calls), the calls of the collectors in
+        # convert_doc, and the initialisers of the lists in the Tree literal there
+        seen_rows = []
+        for name, hre in fns:
+            mh = re.search(hre, src)
+            b = _fn_body(src, hre)
+            head = _norm(_strip_comments(src[mh.start():mh.end() - 1]))
+            frags = [head] if re.search(r"\bseen\w*\b", head) else []
+            for stmt in re.split(r"[;{}]", _strip_comments(b)):
+                if re.search(r"\bseen\w*\b", stmt):
+                    frags.append(_norm(stmt))
+            seen_rows.append('(%s, [%s])' % (_coq_str(name), "; ".join(_coq_str(x) for x in frags)))
+        csrc = _strip_comments(api.rd('crates/usvg/src/parser/converter.rs'))
+        calls = [_norm(c) for c in re.findall(r"\btree\s*(?:\.\s*root\s*)?\.\s*collect_\w+\s*\([^;]*\)\s*;", csrc)]
+        lit = re.search(r"let\s+mut\s+tree\s*=\s*Tree\s*\{(.*?)\n\s*\};", csrc, re.S)
+        if not lit:
+            raise api.Unsupported("convert_doc: `let mut tree = Tree { .. };` not found")
+        inits = sorted(_norm(x) for x in re.findall(r"\b(?:linear_gradients|radial_gradients|patterns|clip_paths|masks|filters)\s*:[^,]*", lit.group(1)))
+        out += ["(* every mention of a `seen` address set in the collectors: signature, statements *)",
+                "Definition collector_seen : list (string * list string) :=\n  [%s]." % ";\n   ".join(seen_rows),
+                "(* crates/usvg/src/parser/converter.rs :: convert_doc: the calls of the collectors, the initialisers of the lists *)",
+                "Definition collector_calls : list string :=\n  [%s]." % ";\n   ".join(_coq_str(c) for c in calls),
+                "Definition tree_list_inits : list string :=\n  [%s].\n" % ";\n   ".join(_coq_str(c) for c in inits)]
         api.write_gen('CollectTables.v', "\n".join(out))
         api.ok('tables', 'collect', arms=len(arms))
     except (api.Unsupported, OSError, ValueError, IndexError) as e:
